@@ -527,6 +527,10 @@ func pipelineComponent(r *hx.Run) {
 	addFree(60*m, 200, 600, 0.05, 0.05, 0.1, 20, []int{0, 0, 20, 200})
 	addFree(12*m, 1500, 3000, 0.02, 0.02, 0.03, 150, []int{0, 0, 20})
 	addFree(16*m, 300, 800, 0.25, 0.2, 0.3, 150, []int{0, 0, 20, 200}) // > 100 errors each
+	// far more than 1000 errors from ONE source (requests / builds / writes that nearly all fail, and a
+	// receiver that reports 1500 errors): every one of them must still come out, and the streams must end
+	jobs = append(jobs, pipeJob(rng, 2, 2600, 0.9, 0.05, 0.5, 0, "free"), pipeJob(rng, 3, 1400, 0.02, 0.9, 0.9, 0, "free"),
+		pipeJob(rng, 1, 1500, 0.0, 0.0, 0.95, 1500, "free"))
 
 	outs := make([]string, len(jobs))
 	var wg sync.WaitGroup
